@@ -288,7 +288,8 @@ def parse_response(buf):
     ret['status_text'] = cr.status_text
     params = cr.body
     for k in ControlParametersValue._encoded_fields:
-        val = getattr(params, k.name)
+        # A response without a body (e.g. an error status) has no parameters
+        val = getattr(params, k.name) if params is not None else None
         if isinstance(val, memoryview):
             val = bytes(val)
         ret[k.name] = val
